@@ -441,6 +441,9 @@ def energy_rule(ctx):
 
 
 def run(ctx):
+    from ..shared import group_loop_rule as _group_loop_rule
+
+    _group_loop_rule(ctx, "R16.11", scope=lambda f, _s=("EasyFEA.Simulations", "EasyFEA.Models._utils", "EasyFEA.FEM._mesh"): f.module.name.startswith(_s), min_instances=10)
     ctx.level = "other"
     ctx.explanation = (
         "Every Result() dispatcher is interpreted on a labelled two-node simulation stub for each dimension / dof configuration: the names folded out of "
